@@ -171,7 +171,7 @@ def main():
     for j in jobs:
         j['timeout'] = cap
         if tier == 'thorough': j['export_smt2'] = 4
-        else: j['export_smt2'] = 1 if rnd.random() < 0.25 else 0
+        else: j['export_smt2'] = 1
     # ---- regenerate MIR from the current tree
     scratch = mirdump.scratch_root()
     try:
@@ -219,7 +219,8 @@ def main():
     cvc5_agree = cvc5_total = 0
     if smt2:
         import crosscheck
-        cvc5_total, cvc5_agree, bad = crosscheck.run(smt2, limit=(40 if tier == 'quick' else 400), nproc=a.jobs)
+        rnd.shuffle(smt2)
+        cvc5_total, cvc5_agree, bad = crosscheck.run(smt2, limit=(24 if tier == 'quick' else 400), nproc=a.jobs)
         for b in bad: incon.append('solver disagreement / error: ' + b)
     # ---- replay
     known = load_known()
